@@ -5,6 +5,7 @@
 #include <sys/wait.h>
 
 #include <gudhi/Simplex_tree.h>
+#include <gudhi/Hasse_complex.h>
 #include <gudhi/Persistent_cohomology.h>
 #include <gudhi/Persistent_cohomology/Field_Zp.h>
 #include <gudhi/Persistent_cohomology/Multi_field.h>
@@ -82,6 +83,25 @@ void run_zp_(Trace& tr, ST& st, int p, double minlen, bool flag, const char* nam
     pairs.push_back(bj::object{{"dim", st.dimension(std::get<0>(pr))}, {"b", fv(st.filtration(std::get<0>(pr)))}, {"d", fv(st.filtration(std::get<1>(pr)))}});
   tr.emit(bj::object{{"op", "pc"}, {"name", name}, {"p", p}, {"minlen", fv(minlen)}, {"flag", flag}, {"dimK", st.dimension()},
                      {"cells", exposed_cells(st, p)}, {"pairs", pairs}});
+}
+// the same filtered complex through Hasse_complex (converting constructor, keys = filtration order)
+void run_zp_hasse_(Trace& tr, ST& st, int p, double minlen, bool flag, const char* name) {
+  bj::array cells = exposed_cells(st, p);   // also refreshes the filtration cache
+  typename ST::Simplex_key k = 0;
+  for (auto sh : st.filtration_simplex_range()) st.assign_key(sh, k++);
+  Gudhi::Hasse_complex<> hasse(st);
+  pc::Persistent_cohomology<Gudhi::Hasse_complex<>, pc::Field_Zp> pcoh(hasse, flag);
+  pcoh.init_coefficients(p);
+  pcoh.compute_persistent_cohomology(minlen);
+  bj::array pairs;
+  for (auto& pr : pcoh.get_persistent_pairs())
+    pairs.push_back(bj::object{{"dim", hasse.dimension(std::get<0>(pr))}, {"b", fv(hasse.filtration(std::get<0>(pr)))}, {"d", fv(hasse.filtration(std::get<1>(pr)))}});
+  tr.emit(bj::object{{"op", "pc"}, {"name", std::string(name) + "/hasse"}, {"p", p}, {"minlen", fv(minlen)}, {"flag", flag}, {"dimK", st.dimension()},
+                     {"cells", cells}, {"pairs", pairs}});
+}
+void run_zp_hasse(Trace& tr, ST& st, int p, double minlen, bool flag, const char* name) {
+  isolated(tr, bj::object{{"engine", "Field_Zp on Hasse_complex"}, {"name", name}, {"p", p}, {"minlen", fv(minlen)}, {"flag", flag}},
+           [&] { run_zp_hasse_(tr, st, p, minlen, flag, name); });
 }
 void run_multi_(Trace& tr, ST& st, int lo, int hi, const std::vector<int>& primes, double minlen, bool flag, const char* name) {
   pc::Persistent_cohomology<ST, pc::Multi_field> pcoh(st, flag);
@@ -162,6 +182,7 @@ int main(int argc, char** argv) {
       double minlen = static_cast<double>(static_cast<int>(rng() % 3)) - 1;
       run_zp(tr, st, p, minlen, rng() % 2 == 0, "random");
       if (r % 4 == 0) run_multi(tr, st, 2, 5, {2, 3, 5}, minlen, rng() % 2 == 0, "random");
+      if (r % 2 == 1) run_zp_hasse(tr, st, p, minlen, true, "random");
     }
   }
   // dense graphs with many simultaneously open H1 classes killed by random triangles, p > 2: annotation columns with a
@@ -184,7 +205,9 @@ int main(int argc, char** argv) {
       int T = 90 + static_cast<int>(rng() % 30);
       for (int k = 0; k < T && k < static_cast<int>(tris.size()); ++k) st.insert_simplex(tris[k], f += 1);
       const int ps[] = {3, 5, 7};
-      run_zp(tr, st, ps[rng() % 3], 0, true, "dense");
+      int pp = ps[rng() % 3];
+      run_zp(tr, st, pp, 0, true, "dense");
+      run_zp_hasse(tr, st, pp, 0, true, "dense");
     }
   }
   return 0;
